@@ -15,68 +15,46 @@ def lenSum (ps : List Part) : Int := (ps.map Part.len).sum
 
 theorem lenSum_cons (p : Part) (ps : List Part) : lenSum (p :: ps) = p.len + lenSum ps := by simp [lenSum]
 
-theorem chainFree_tail (a : Part) (rest : List Part) (h : chainFree (a :: rest) = true) : chainFree rest = true := by
-  match rest with
-  | [] => rfl
-  | [_] => rfl
-  | b :: c :: r => simp [chainFree] at h; exact h.2
-
 theorem Part.mem_merge (a b : Part) (s : Strand) (ha : a.lo ≤ a.hi) (hb : b.lo ≤ b.hi) (hadj : a.hi = b.lo) (i : Int) :
     (⟨a.lo, b.hi, s⟩ : Part).mem i = (a.mem i || b.mem i) := by
   simp only [Part.mem]
   by_cases h1 : a.lo ≤ i <;> by_cases h2 : i < a.hi <;> by_cases h3 : b.lo ≤ i <;> by_cases h4 : i < b.hi <;>
     simp [h1, h2, h3, h4] <;> omega
 
-/-- `mergeAdjacent` keeps the union of the bases and the validity of the parts, provided no piece abuts
-    both neighbours (otherwise the code itself loses bases) and abutting pieces share their strand -/
+/-- `mergeAdjacent` (after the repair D58) keeps the union of the bases, the total length and the validity of the
+    parts, for runs of abutting pieces of any length, provided abutting pieces share their strand (otherwise it raises) -/
 theorem mergeAdjacent_mem (L : Int) (s : Strand) : ∀ (rest more : List Part) (previous m : Part),
     m.hi = previous.hi → PartIn L previous → PartIn L m → (∀ p ∈ more, PartIn L p) → (∀ p ∈ rest, PartIn L p) →
     previous.strand = s → (∀ p ∈ rest, p.strand = s) →
-    chainFree (previous :: rest) = true →
-    (m = previous ∨ (∀ q, rest.head? = some q → previous.hi ≠ q.lo)) →
     ∃ r, mergeAdjacent (m :: more) previous rest = .ok r ∧
       (∀ i, anyMem r i = (anyMem (m :: more) i || anyMem rest i)) ∧ (∀ p ∈ r, PartIn L p) ∧
       lenSum r = lenSum (m :: more) + lenSum rest
-  | [], more, previous, m, _, _, hm, hmore, _, _, _, _, _ => by
+  | [], more, previous, m, _, _, hm, hmore, _, _, _ => by
     refine ⟨(m :: more).reverse, by simp [mergeAdjacent, pure, Except.pure], ?_, ?_, by simp [lenSum, List.sum_reverse]; omega⟩
     · intro i; simp [anyMem, List.any_reverse, Bool.or_comm]
     · intro p hp
       rcases List.mem_cons.1 (List.mem_reverse.1 hp) with rfl | hp
       · exact hm
       · exact hmore p hp
-  | part :: rest, more, previous, m, hmh, hprev, hm, hmore, hrest, hs, hsr, hcf, hinv => by
+  | part :: rest, more, previous, m, hmh, hprev, hm, hmore, hrest, hs, hsr => by
     have hpart : PartIn L part := hrest part (by simp)
     have hps : part.strand = s := hsr part (by simp)
-    have hcf' := chainFree_tail previous (part :: rest) hcf
     by_cases hadj : previous.hi = part.lo
-    · -- merge: by the invariant `m` is `previous` itself
-      have hmp : m = previous := by
-        rcases hinv with h | h
-        · exact h
-        · exact absurd hadj (h part rfl)
-      subst hmp
-      have hnext : ∀ q, rest.head? = some q → part.hi ≠ q.lo := by
-        intro q hq
-        match rest, hq with
-        | c :: r, hq =>
-          simp at hq; subst hq
-          simp [chainFree, hadj] at hcf
-          exact hcf.1
-      obtain ⟨r, hr, hmem, hin, hsum⟩ := mergeAdjacent_mem L s rest more part ⟨m.lo, part.hi, part.strand⟩ rfl hpart
+    · obtain ⟨r, hr, hmem, hin, hsum⟩ := mergeAdjacent_mem L s rest more part ⟨m.lo, part.hi, part.strand⟩ rfl hpart
         ⟨hm.1, by show m.lo < part.hi; have := hpart.2.1; have := hm.2.1; omega, hpart.2.2⟩ hmore (fun p hp => hrest p (by simp [hp])) hps
-        (fun p hp => hsr p (by simp [hp])) hcf' (.inr hnext)
+        (fun p hp => hsr p (by simp [hp]))
       refine ⟨r, ?_, ?_, hin, by rw [hsum]; simp only [lenSum_cons, Part.len]; omega⟩
-      · have hse : ¬ (m.strand != part.strand) = true := by simp [hs, hps]
+      · have hse : ¬ (previous.strand != part.strand) = true := by simp [hs, hps]
         simp only [mergeAdjacent, hadj, if_true, hse, if_false, Bool.false_eq_true]
         exact hr
       · intro i
         rw [hmem i]
-        have := Part.mem_merge m part part.strand (by have := hm.2.1; omega) (by have := hpart.2.1; omega) hadj i
+        have := Part.mem_merge m part part.strand (by have := hm.2.1; omega) (by have := hpart.2.1; omega) (by omega) i
         simp only [anyMem, List.any_cons, this]
         cases m.mem i <;> cases part.mem i <;> simp
     · obtain ⟨r, hr, hmem, hin, hsum⟩ := mergeAdjacent_mem L s rest (m :: more) part part rfl hpart hpart
         (by intro p hp; rcases List.mem_cons.1 hp with rfl | hp; exact hm; exact hmore p hp)
-        (fun p hp => hrest p (by simp [hp])) hps (fun p hp => hsr p (by simp [hp])) hcf' (.inl rfl)
+        (fun p hp => hrest p (by simp [hp])) hps (fun p hp => hsr p (by simp [hp]))
       refine ⟨r, ?_, ?_, hin, by rw [hsum]; simp only [lenSum_cons]; omega⟩
       · simp only [mergeAdjacent, hadj, if_false]
         exact hr
@@ -168,12 +146,12 @@ theorem emod_emod_shift (a L : Int) (hL : 0 < L) : (a + L) % L = a % L := by
   have : a + L = a + 1 * L := by omega
   rw [this, Int.add_mul_emod_self_right]
 
-/-- `offset_location` rotates: for parts inside the record of one strand, an offset `k` with `0 < |k| < L`, a
-    location not as long as the record, and pieces of which none abuts both neighbours, the result is made of
-    valid parts and covers exactly the bases `i` with `(i - k) mod L` in the location -/
+/-- `offset_location` rotates: for parts inside the record of one strand, an offset `k` with `0 < |k| < L` and a
+    location not as long as the record, the result is made of valid parts of the same total length and covers
+    exactly the bases `i` with `(i - k) mod L` in the location -/
 theorem offset_rotates_general (l : Loc) (k L : Int) (s : Strand) (hne : l.parts ≠ [])
     (hparts : ∀ p ∈ l.parts, PartIn L p) (hs : ∀ p ∈ l.parts, p.strand = s)
-    (hk : k ≠ 0) (hk0 : -L < k) (hk1 : k < L) (hlen : l.len ≠ L) (hcf : chainFree (rotPieces L k l) = true) :
+    (hk : k ≠ 0) (hk0 : -L < k) (hk1 : k < L) (hlen : l.len ≠ L) :
     ∃ r, offsetLocation l k L = .ok r ∧ (∀ p ∈ r.parts, PartIn L p) ∧ r.len = l.len ∧
       ∀ i, r.mem i = true ↔ (0 ≤ i ∧ i < L ∧ l.mem ((i - k) % L) = true) := by
   obtain ⟨p0, hp0⟩ := List.exists_mem_of_ne_nil _ hne
@@ -257,10 +235,10 @@ theorem offset_rotates_general (l : Loc) (k L : Int) (s : Strand) (hne : l.parts
       rw [hpc] at this
       simp [anyMem] at this
     | cons first rest =>
-      rw [hpc] at hall hcf hmemP
+      rw [hpc] at hall hmemP
       obtain ⟨r, hr, hmem, hin, hsum⟩ := mergeAdjacent_mem L s rest [] first first rfl (hall first (by simp)).1
         (hall first (by simp)).1 (by simp) (fun p hp => (hall p (by simp [hp])).1) (hall first (by simp)).2
-        (fun p hp => (hall p (by simp [hp])).2) hcf (.inl rfl)
+        (fun p hp => (hall p (by simp [hp])).2)
       have hallB := allIn_of L (first :: rest) (fun p hp => (hall p hp).1)
       have hparts_r : (Loc.ofParts r).parts = r := by
         unfold Loc.ofParts; split <;> simp [Loc.parts]
